@@ -392,6 +392,6 @@ SATELLITES = [("C17", "*")]
 
 META = {"not_covered": [
     "completeness ('every damage is reported or harmless') and the link to restorability: whole-repository statements",
-    "check_trees' threaded tree walk (its per-tree node loop IS a unit), the rayon iteration of check_cache_files (its per-file closure IS a unit), check_packs' index stream (threads); the BTreeMap/HashMap of the list comparisons are stubs with map semantics",
+    "TreeStreamerOnce itself (threads; check_trees' walk over its items and the per-tree node loop ARE units), the rayon iteration of check_cache_files (its per-file closure IS a unit), check_packs' index stream (threads); the BTreeMap/HashMap of the list comparisons are stubs with map semantics",
     "panics of check_pack / check_packs on a crafted index whose size field or lengths are inconsistent (preconditions of the units)",
 ]}
